@@ -3,11 +3,13 @@
 package proxy
 
 import (
+	"crypto/sha1"
 	"encoding/json"
 	"fmt"
 	"os"
-	"sort"
 	"strings"
+	"sync"
+	"sync/atomic"
 	"testing"
 	"time"
 
@@ -102,6 +104,43 @@ func vfRingApply(n *vfRingNode, op vfRingOp) (msg string) {
 		n.model = append([]vfRingEntry(nil), n.model[k:]...)
 	}
 	return vfRingCheckState(n)
+}
+
+// vfRingApplyRaw applies op to the ring and the model without evaluating the oracles (used to rebuild a state
+// that was already checked when it was first reached).
+func vfRingApplyRaw(n *vfRingNode, op vfRingOp) {
+	defer func() { _ = recover() }()
+	switch op.Kind {
+	case "append":
+		n.ring.Append(op.ID, vfRingShards[op.Shard], op.Task)
+		if len(n.model) > 0 {
+			for id := n.model[len(n.model)-1].ID + 1; id < op.ID; id++ {
+				n.model = append(n.model, vfRingEntry{ID: id})
+			}
+		}
+		n.model = append(n.model, vfRingEntry{ID: op.ID, Shard: op.Shard, Task: op.Task})
+		n.last = op.ID
+	case "discard":
+		n.ring.Discard(op.N)
+		k := op.N
+		if k < 0 {
+			k = 0
+		}
+		if k > len(n.model) {
+			k = len(n.model)
+		}
+		n.model = append([]vfRingEntry(nil), n.model[k:]...)
+	case "aggdiscard":
+		_, cnt := n.ring.AggregateUpTo(op.W)
+		n.ring.Discard(cnt)
+		k := 0
+		for _, e := range n.model {
+			if e.ID <= op.W {
+				k++
+			}
+		}
+		n.model = append([]vfRingEntry(nil), n.model[k:]...)
+	}
 }
 
 func vfRingCheckAgg(model []vfRingEntry, w int64, got map[history.ClusterShardID]int64, cnt int) string {
@@ -232,103 +271,178 @@ func TestVerifC05(t *testing.T) {
 		return
 	}
 
-	depth, gaps, tasks, caps := 5, []int64{1, 2}, []int64{1, 2, 3}, []int{-1, 0, 1, 2, 3, 4}
+	tasks, caps := []int64{1, 2, 3}, []int{-1, 0, 1, 2, 3, 4}
+	type vfRingCfg struct {
+		depth int
+		gaps  []int64
+	}
+	cfgs := []vfRingCfg{{5, []int64{1, 2}}}
+	maxStates := 4_000_000
 	if vrt.Thorough() {
-		depth, gaps = 7, []int64{1, 2, 3}
+		// each configuration is completed before the next one starts
+		cfgs = []vfRingCfg{{6, []int64{1, 2}}, {5, []int64{1, 2, 3}}, {8, []int64{1}}}
+		maxStates = 12_000_000
 	}
 	if d := os.Getenv("VERIF_C05_DEPTH"); d != "" {
-		fmt.Sscan(d, &depth)
+		fmt.Sscan(d, &cfgs[0].depth)
 	}
 	deadline := vrt.Deadline()
-	seen := map[string]bool{}
-	var frontier []*vfRingNode
-	for _, c := range caps {
-		n := &vfRingNode{ring: newProxyIDRingBuffer(c), path: []vfRingOp{{Kind: "new", Cap: c}}}
-		if m := vfRingCheckState(n); m != "" {
-			res.Violate("ring-model-mismatch", m, map[string]any{"path": n.path})
-		}
-		k := vfRingKey(n)
-		if !seen[k] {
-			seen[k] = true
-			frontier = append(frontier, n)
-		}
-	}
-	var transitions, aggChecks int64
-	growths, wraps, holes := 0, 0, 0
-	completed := 0
+	var transitions, aggChecks, growths, wraps, holes, nSeenTotal int64
 	exhaustive := true
+	capHit := false
+	var outMu sync.Mutex
 	outcomes := map[string]bool{}
-	for d := 1; d <= depth && len(frontier) > 0; d++ {
-		var next []*vfRingNode
-		for _, n := range frontier {
-			if time.Now().After(deadline) {
+	var cfgSummary []string
+	var frontier [][]vfRingOp
+	var rebuild func(path []vfRingOp) *vfRingNode
+	for _, cfg := range cfgs {
+		depth, gaps := cfg.depth, cfg.gaps
+		completed := 0
+		// memory-lean BFS: a state is kept as the operation path that reaches it (rebuilt by replay when it is expanded),
+		// the visited set holds 16-byte digests of the canonical key, sharded over 64 locks; levels are expanded in parallel
+		type digest [16]byte
+		const nShards = 64
+		var seenMu [nShards]sync.Mutex
+		var seen [nShards]map[digest]struct{}
+		for i := range seen {
+			seen[i] = map[digest]struct{}{}
+		}
+		var nSeen int64
+		markSeen := func(k string) bool {
+			h := sha1.Sum([]byte(k))
+			var d digest
+			copy(d[:], h[:16])
+			sh := int(d[0]) % nShards
+			seenMu[sh].Lock()
+			_, dup := seen[sh][d]
+			if !dup {
+				seen[sh][d] = struct{}{}
+			}
+			seenMu[sh].Unlock()
+			if !dup {
+				atomic.AddInt64(&nSeen, 1)
+			}
+			return !dup
+		}
+		rebuild = func(path []vfRingOp) *vfRingNode {
+			n := &vfRingNode{ring: newProxyIDRingBuffer(path[0].Cap)}
+			for _, op := range path[1:] {
+				vfRingApplyRaw(n, op)
+			}
+			return n
+		}
+		frontier = nil
+		for _, c := range caps {
+			n := &vfRingNode{ring: newProxyIDRingBuffer(c), path: []vfRingOp{{Kind: "new", Cap: c}}}
+			if m := vfRingCheckState(n); m != "" {
+				res.Violate("ring-model-mismatch", m, map[string]any{"path": n.path})
+			}
+			if markSeen(vfRingKey(n)) {
+				frontier = append(frontier, n.path)
+			}
+		}
+		for d := 1; d <= depth && len(frontier) > 0; d++ {
+			workers := vrt.Workers()
+			nexts := make([][][]vfRingOp, workers)
+			var wg sync.WaitGroup
+			var stop int32
+			for w := 0; w < workers; w++ {
+				wg.Add(1)
+				go func(w int) {
+					defer wg.Done()
+					for i := w; i < len(frontier); i += workers {
+						if atomic.LoadInt32(&stop) != 0 {
+							return
+						}
+						if i%1024 == w && (time.Now().After(deadline) || atomic.LoadInt64(&nSeen) > int64(maxStates)) {
+							atomic.StoreInt32(&stop, 1)
+							return
+						}
+						path := frontier[i]
+						n := rebuild(path)
+						for _, op := range vfRingSuccessors(n, gaps, tasks) {
+							c := &vfRingNode{ring: vfRingClone(n.ring), model: append([]vfRingEntry(nil), n.model...), last: n.last}
+							capBefore := len(c.ring.entries)
+							msg := vfRingApply(c, op)
+							atomic.AddInt64(&transitions, 1)
+							atomic.AddInt64(&aggChecks, int64(len(c.model)+4))
+							cpath := append(append(make([]vfRingOp, 0, len(path)+1), path...), op)
+							if msg != "" {
+								res.Violate("ring-model-mismatch", fmt.Sprintf("after %d ops: %s", len(cpath)-1, msg), map[string]any{"path": cpath})
+								continue
+							}
+							if !markSeen(vfRingKey(c)) {
+								continue
+							}
+							if len(c.ring.entries) > capBefore {
+								atomic.AddInt64(&growths, 1)
+							}
+							if c.ring.size > 0 && c.ring.head+c.ring.size > len(c.ring.entries) {
+								atomic.AddInt64(&wraps, 1)
+							}
+							for _, e := range c.model {
+								if e.Shard == 0 {
+									atomic.AddInt64(&holes, 1)
+									break
+								}
+							}
+							got, _ := c.ring.AggregateUpTo(c.last)
+							outMu.Lock()
+							if len(outcomes) < 100000 {
+								outcomes[fmt.Sprint(got)] = true
+							}
+							outMu.Unlock()
+							nexts[w] = append(nexts[w], cpath)
+						}
+					}
+				}(w)
+			}
+			wg.Wait()
+			if stop != 0 {
 				exhaustive = false
+				capHit = atomic.LoadInt64(&nSeen) > int64(maxStates)
 				break
 			}
-			for _, op := range vfRingSuccessors(n, gaps, tasks) {
-				c := &vfRingNode{ring: vfRingClone(n.ring), model: append([]vfRingEntry(nil), n.model...), last: n.last}
-				c.path = append(append([]vfRingOp(nil), n.path...), op)
-				capBefore := len(c.ring.entries)
-				msg := vfRingApply(c, op)
-				transitions++
-				aggChecks += int64(len(c.model) + 4)
-				if msg != "" {
-					res.Violate("ring-model-mismatch", fmt.Sprintf("after %d ops: %s", len(c.path)-1, msg), map[string]any{"path": c.path})
-					continue
-				}
-				k := vfRingKey(c)
-				if seen[k] {
-					continue
-				}
-				seen[k] = true
-				if len(c.ring.entries) > capBefore {
-					growths++
-				}
-				if c.ring.size > 0 && c.ring.head+c.ring.size > len(c.ring.entries) {
-					wraps++
-				}
-				for _, e := range c.model {
-					if e.Shard == 0 {
-						holes++
-						break
-					}
-				}
-				if len(outcomes) < 100000 {
-					got, _ := c.ring.AggregateUpTo(c.last)
-					outcomes[fmt.Sprint(got)] = true
-				}
-				next = append(next, c)
+			completed = d
+			frontier = frontier[:0]
+			for _, nx := range nexts {
+				frontier = append(frontier, nx...)
+			}
+			if res.NumViolations() > 0 {
+				break
 			}
 		}
-		if !exhaustive {
-			break
+		nSeenTotal += atomic.LoadInt64(&nSeen)
+		cfgSummary = append(cfgSummary, fmt.Sprintf("gaps %v: depth %d of %d completed, %d states", gaps, completed, depth, atomic.LoadInt64(&nSeen)))
+		if completed != depth {
+			exhaustive = false
 		}
-		completed = d
-		frontier = next
-		if res.NumViolations() > 0 {
+		if res.NumViolations() > 0 || time.Now().After(deadline) {
 			break
 		}
 	}
+	res.Set("configurations", cfgSummary)
+	res.Set("state_cap", int64(maxStates))
+	res.Set("state_cap_hit", capHit)
 	// samples: the deepest few states reached
-	sort.SliceStable(frontier, func(i, j int) bool { return len(frontier[i].model) > len(frontier[j].model) })
 	for i := 0; i < len(frontier) && i < 3; i++ {
-		res.Sample(map[string]any{"path": frontier[i].path, "ring_in_order": frontier[i].model})
+		n := rebuild(frontier[len(frontier)-1-i])
+		res.Sample(map[string]any{"path": frontier[len(frontier)-1-i], "ring_in_order": n.model})
 	}
 	if len(frontier) == 0 {
 		res.Sample(map[string]any{"note": "frontier empty"})
 	}
-	res.Set("states", int64(len(seen)))
+	res.Set("states", nSeenTotal)
 	res.Set("transitions", transitions)
 	res.Set("traces_validated_against_impl", transitions)
 	res.Set("aggregate_queries_checked", aggChecks)
-	res.Set("depth_completed", int64(completed))
-	res.Set("depth_bound", int64(depth))
-	res.Set("states_after_growth", int64(growths))
-	res.Set("states_wrapped_around", int64(wraps))
-	res.Set("states_with_holes", int64(holes))
+	res.Set("depth_bound", int64(cfgs[0].depth))
+	res.Set("states_after_growth", growths)
+	res.Set("states_wrapped_around", wraps)
+	res.Set("states_with_holes", holes)
 	res.Set("distinct_outcomes", int64(len(outcomes)))
-	res.Set("exhaustive", exhaustive && completed == depth)
-	res.Set("alphabet", fmt.Sprintf("capacities %v; append(last+%v, shard A|B, task %v); discard(-1..size+1); aggregate(w)+discard(count) for w in start-2..start+size+1; every state additionally queried with aggregate(w) for every w in first-2..last+2", caps, gaps, tasks))
+	res.Set("exhaustive", exhaustive)
+	res.Set("alphabet", fmt.Sprintf("capacities %v; append(last+gap, shard A|B, task %v) with the gaps of each configuration (see configurations); discard(-1..size+1); aggregate(w)+discard(count) for w in start-2..start+size+1; every state additionally queried with aggregate(w) for every w in first-2..last+2", caps, tasks))
 	res.Set("explanation", "every transition is executed on the real proxyIDRingBuffer (cloned through private fields) and compared with a slice model; there is no separate model whose traces need replaying, so traces_validated_against_impl equals transitions")
 	res.Assume("proxy ids appended to one ring are strictly increasing (documented precondition of Append; nextProxyTaskID++ under the sender lock)")
 	if res.NumViolations() > 0 {
